@@ -135,7 +135,7 @@ class _LazyStackedTensorDictKeysView(_TensorDictKeysView):
     def __contains__(self, item):
         item = _unravel_key_to_tuple(item)
         if item[0] in self.tensordict._iterate_over_keys():
-            if self.leaves_only:
+            if self.leaves_only and len(item) == 1:
                 return not _is_tensor_collection(self.tensordict.entry_class(item[0]))
             has_first_key = True
         else:
